@@ -268,13 +268,32 @@ def effect_observation(call) -> dict:
     pre = {}
     mutable_ids(list(args), pre, "args")
     mutable_ids(owner, pre, "self")
-    obs = {"changed": [], "aliases": [], "raised": None}
+    obs = {"changed": [], "aliases": [], "raised": None, "attr_writes": [], "old_object_writes": []}
     state_in = args[-1]
     before = state_in.model_dump() if hasattr(state_in, "model_dump") else None
+    # every attribute assignment to a pydantic object during the call (also transient ones that a dump would miss)
+    import pydantic
+    orig_setattr = pydantic.BaseModel.__setattr__
+    log = []
+
+    def tracing_setattr(self_, name, value):
+        log.append((id(self_), type(self_).__name__, name))
+        return orig_setattr(self_, name, value)
+
+    pydantic.BaseModel.__setattr__ = tracing_setattr
     try:
         res = fn(*args)
     except Exception as e:
         obs["raised"] = f"{type(e).__name__}: {e}"
+        res = None
+    finally:
+        pydantic.BaseModel.__setattr__ = orig_setattr
+    for oid, cname, name in log:
+        if name not in obs["attr_writes"]:
+            obs["attr_writes"].append(name)
+        if oid in pre and len(obs["old_object_writes"]) < 4:
+            obs["old_object_writes"].append([pre[oid], cname, name])
+    if obs["raised"] is not None:
         return obs
     if call["is_view"] or not isinstance(res, tuple):
         return obs
